@@ -45,6 +45,46 @@ def fanout_history(hist):
         loop.close()
 
 
+def fanout_bursts(hist, sizes):
+    """The same through bursts: consecutive messages of one sender and channel travel in ONE datagram, the datagrams of a
+    burst are handed over back to back without a loop iteration in between; per burst the number of reboot_detected
+    calls on each component."""
+    loop = asyncio.new_event_loop()
+    asyncio.set_event_loop(loop)
+    try:
+        prot = S.ServiceDiscoveryProtocol(("224.224.224.245", 30490))
+        prot.log.disabled = True
+        calls = {"subscriber": [], "discovery": [], "announcer": []}
+        for name in calls:
+            comp = getattr(prot, name)
+            comp.reboot_detected = (lambda n: (lambda addr: calls[n].append(addr)))(name)
+        out = []
+        k = 0
+        for size in sizes:
+            burst = hist[k:k + size]
+            k += size
+            if not burst:
+                break
+            before = {c: len(v) for c, v in calls.items()}
+            dgs = []          # [(sender, channel, bytes)]
+            for a, mc, f, sid in burst:
+                sd = H.SOMEIPSDHeader(entries=(), flag_reboot=bool(f))
+                raw = bytes(H.SOMEIPHeader(H.SD_SERVICE, H.SD_METHOD, 0, sid, 1, H.SOMEIPMessageType.NOTIFICATION, payload=bytes(sd.build())).build())
+                if dgs and dgs[-1][0] == a and dgs[-1][1] == mc:
+                    dgs[-1] = (a, mc, dgs[-1][2] + raw)
+                else:
+                    dgs.append((a, mc, raw))
+            for a, mc, data in dgs:
+                prot.datagram_received(data, ADDRS[a], bool(mc))
+            for _ in range(4):
+                loop.run_until_complete(asyncio.sleep(0))
+            out.append((len(burst), {c: [x for x in calls[c][before[c]:]] for c in calls}))
+        return out
+    finally:
+        asyncio.set_event_loop(None)
+        loop.close()
+
+
 def run(ctx):
     r = ctx.rng
     quick = ctx.tier == "quick"
@@ -102,4 +142,16 @@ def run(ctx):
                 ctx.violation("reboot detection did not reach each component exactly once", dict(history=h[: j + 1], position=j, detected=d, calls_subscriber_discovery_announcer=list(delta)))
                 break
         ctx.case(("fanout", tuple(h)), kind="fanout")
+        # ... and in bursts (several messages per datagram, datagrams back to back): every detection still reaches every component
+        sizes = [r.choice([1, 2, 3]) for _ in range(len(h))]
+        k = 0
+        for n_msgs, got in fanout_bursts(h, sizes):
+            want = sorted(ADDRS[a] for (a, mc, f, sid), d in zip(h[k:k + n_msgs], det[k:k + n_msgs]) if d)
+            if any(sorted(got[c]) != want for c in got):
+                ctx.violation("reboot detections of a burst (several SD messages in one datagram / datagrams handed over back to back) did not reach each component exactly once each",
+                              dict(history=h[: k + n_msgs], burst_start=k, burst_length=n_msgs, expected_calls_per_component=len(want),
+                                   calls={c: len(v) for c, v in got.items()}))
+                break
+            k += n_msgs
+        ctx.case(("fanout-bursts", tuple(h), tuple(sizes)), kind="fanout-bursts")
     incoq_crosscheck(ctx, cases, outs, limit=150 if quick else 500)
